@@ -287,8 +287,8 @@ end
 def libraryTags : List Str :=
   [c!"details", c!"summary", c!"div", c!"span", c!"table", c!"tr", c!"td"]
 
-/-- The attribute names the tree view emits (no colours / ids / user css classes in the model). -/
-def libraryAttrs : List Str := [c!"open", c!"class"]
+/-- The attribute names the tree view emits. -/
+def libraryAttrs : List Str := [c!"open", c!"class", c!"style"]
 
 /-! ### (4) the tree view skeleton -/
 
@@ -388,6 +388,17 @@ structure Ctx where
   keyStyle : KeyStyle := .summary
   collapseLevel : Option Int := some 1
   uncollapse : List (List Key) := []
+  keyColor : Option (Option Str × Option Str) := none   -- (color, background-color) of label keys
+  highlight : List (List Key) := []      -- node filter `highlight`, as the set of paths it accepts
+  lowlight : List (List Key) := []
+  deriving Repr
+
+/-- Arguments that act on the root only: option-level markup, written as given (NOT escaped:
+`title` is markup by contract, css classes and colours are attribute text chosen by the caller). -/
+structure Top where
+  title : Option Str := none
+  cssClasses : List Str := []
+  summaryColor : Option (Option Str × Option Str) := none
   deriving Repr
 
 /-- Arguments of `pg.to_html_str(value, **opts)`; `name`, `includeKeys`, `excludeKeys` act on the
@@ -396,6 +407,7 @@ structure Opts extends Ctx where
   name : Option Key := none
   includeKeys : Option (List Key) := none
   excludeKeys : Option (List Key) := none
+  top : Top := {}
   deriving Repr
 
 def LeafKind.cssName : LeafKind → Str
@@ -436,7 +448,7 @@ def Tree.title : Tree → Str
   | .leaf _ _ k .. => k.title
   | .node _ _ k .. => k.title
 
-/-- `needs_summary` (tree_view.py:482-520) with `title=None`. -/
+/-- `needs_summary` (tree_view.py:482-520); `named` = a name or a title was given. -/
 def needsSummary (c : Ctx) (named : Bool) (t : Tree) : Bool :=
   match c.enableSummary with
   | some b => b
@@ -465,27 +477,39 @@ def shouldCollapse (c : Ctx) (named : Bool) (path : List Key) (t : Tree) : Bool 
     else if named && t.isLeaf then false
     else true
 
+/-- `styles=dict(color=c[0], background_color=c[1])` after `get_color`. -/
+def colorStyles (c : Option (Option Str × Option Str)) : List (Str × Option Str) :=
+  match c with
+  | none => [(c!"color", none), (c!"background_color", none)]
+  | some (a, b) => [(c!"color", a), (c!"background_color", b)]
+
 /-- `HtmlTreeView.tooltip` (content=None): the formatted text, escaped, in span.tooltip. -/
-def tooltipEl (st : Sites) (text : Str) : Str :=
-  element c!"span" [] [c!"tooltip"] [] []
+def tooltipEl (st : Sites) (css : List Str) (text : Str) : Str :=
+  element c!"span" [] (c!"tooltip" :: css) [] []
     [emit st.tooltipContent text]
 
+/-- `title or make_title(value)`. -/
+def titleText (top : Top) (t : Tree) : Str :=
+  match top.title with
+  | some s => if s.isEmpty then t.title else s
+  | none => t.title
+
 /-- `HtmlTreeView.summary` once `needs_summary` said yes. `name`: the display name, if any. -/
-def summaryEl (st : Sites) (c : Ctx) (name : Option Str) (t : Tree) : Str :=
+def summaryEl (st : Sites) (c : Ctx) (top : Top) (name : Option Str) (t : Tree) : Str :=
   element c!"summary" [] [] [] []
     [ (match name with
        | some n =>
-         element c!"div" [] [c!"summary-name"] [] []
-           [emit st.summaryName n, if c.enableKeyTooltip then tooltipEl st t.ptip else []]
+         element c!"div" [] (c!"summary-name" :: top.cssClasses) (colorStyles top.summaryColor) []
+           [emit st.summaryName n, if c.enableKeyTooltip then tooltipEl st top.cssClasses t.ptip else []]
        | none => []),
-      element c!"div" [] [c!"summary-title"] [] [] [t.title],
-      if c.enableSummaryTooltip then tooltipEl st t.tip else [] ]
+      element c!"div" [] (c!"summary-title" :: top.cssClasses) [] [] [titleText top t],
+      if c.enableSummaryTooltip then tooltipEl st top.cssClasses t.tip else [] ]
 
 /-- `HtmlTreeView.object_key`: the label-style key cell. -/
 def objectKeyEl (st : Sites) (c : Ctx) (t : Tree) : Str :=
-  element c!"span" [] [c!"object-key", t.key.typeName] [] []
+  element c!"span" [] [c!"object-key", t.key.typeName] (colorStyles c.keyColor) []
     [emit st.objectKey t.key.text]
-  ++ (if c.enableKeyTooltip then tooltipEl st t.ptip else [])
+  ++ (if c.enableKeyTooltip then tooltipEl st [] t.ptip else [])
 
 /-- What `value_repr` returns for a leaf. -/
 def leafText (c : Ctx) : Tree → Str
@@ -493,8 +517,8 @@ def leafText (c : Ctx) : Tree → Str
   | .leaf _ _ _ repr _ _ => repr
   | .node .. => []
 
-def simpleValueEl (st : Sites) (c : Ctx) (t : Tree) : Str :=
-  element c!"span" [] [c!"simple-value", t.cssName] [] []
+def simpleValueEl (st : Sites) (c : Ctx) (css : List Str) (t : Tree) : Str :=
+  element c!"span" [] (c!"simple-value" :: t.cssName :: css) [] []
     [emit st.simpleValue (leafText c t)]
 
 def childCtx (c : Ctx) : Ctx := { c with collapseLevel := c.collapseLevel.map (· - 1) }
@@ -504,34 +528,54 @@ def tdClose : Str := c!"</td>"
 
 def emptySpan : Str := element c!"span" [] [c!"empty-container"] [] [] []
 
+/-- Does the root get a summary? (`name` or `title` given counts as named.) -/
+def hasSummary (c : Ctx) (top : Top) (name : Option Str) (t : Tree) : Bool :=
+  needsSummary c (name.isSome || top.title.isSome) t
+
+/-- css classes go to the content only when there is no summary (`_render`). -/
+def contentCss (c : Ctx) (top : Top) (name : Option Str) (t : Tree) : List Str :=
+  if hasSummary c top name t then [] else top.cssClasses
+
 /-- The `<details>` wrapper of `_render`. -/
-def detailsEl (st : Sites) (c : Ctx) (name : Option Str) (path : List Key) (t : Tree) (content : Str) : Str :=
-  if needsSummary c name.isSome t then
+def detailsEl (st : Sites) (c : Ctx) (top : Top) (name : Option Str) (path : List Key) (t : Tree)
+    (content : Str) : Str :=
+  if hasSummary c top name t then
     element c!"details"
       [if shouldCollapse c name.isSome path t then [] else c!"open"]
-      [c!"pyglove", t.cssName] [] [] [summaryEl st c name t, content]
+      (c!"pyglove" :: t.cssName :: top.cssClasses) [] [] [summaryEl st c top name t, content]
   else content
 
 /-- The `div.complex-value` wrapper of `complex_value`. -/
-def complexEl (kind : NodeKind) (body : Str) : Str :=
-  element c!"div" [] [c!"complex-value", kind.cssName] [] [] [body]
+def complexEl (kind : NodeKind) (css : List Str) (body : Str) : Str :=
+  element c!"div" [] (c!"complex-value" :: kind.cssName :: css) [] [] [body]
 
 def rowEl (keyCell valueCell : Str) : Str :=
   element c!"tr" [] [] [] [] [tdOpen, keyCell, tdClose, tdOpen, valueCell, tdClose]
 
+/-- The css classes of the highlight / lowlight wrapper for the child at `path` (empty: no wrapper). -/
+def hlClasses (c : Ctx) (path : List Key) : List Str :=
+  (if c.highlight.contains path then [c!"highlight"] else [])
+  ++ (if c.lowlight.contains path then [c!"lowlight"] else [])
+
+/-- `render_child_value`: ONE `div` around the child when `highlight` and/or `lowlight` accept it. -/
+def wrapHL (c : Ctx) (path : List Key) (html : Str) : Str :=
+  if (hlClasses c path).isEmpty then html
+  else element c!"div" [] (hlClasses c path) [] [] [html]
+
 mutual
-  /-- `HtmlTreeView.render` (`_render`, tree_view.py:196-443; debug off, no title, no css
-  classes, no colors): optional `<details>` with summary around the content, which is
-  `simple_value` for a leaf and `complex_value` (tree_view.py:982-1232) for a container:
-  children under summary-style keys are rendered with their name, children under label-style
-  keys (always for sequences) become rows of a table. -/
-  def render (st : Sites) (c : Ctx) (name : Option Str) (path : List Key) : Tree → Str
+  /-- `HtmlTreeView.render` (`_render`, tree_view.py:196-443; debug off): optional `<details>`
+  with summary around the content, which is `simple_value` for a leaf and `complex_value`
+  (tree_view.py:982-1232) for a container: children under summary-style keys are rendered with
+  their name, children under label-style keys (always for sequences) become rows of a table;
+  each child rendering goes through the highlight / lowlight wrapper. -/
+  def render (st : Sites) (c : Ctx) (top : Top) (name : Option Str) (path : List Key) : Tree → Str
     | .leaf k p kind repr raw tip =>
-      detailsEl st c name path (.leaf k p kind repr raw tip)
-        (simpleValueEl st c (.leaf k p kind repr raw tip))
+      detailsEl st c top name path (.leaf k p kind repr raw tip)
+        (simpleValueEl st c (contentCss c top name (.leaf k p kind repr raw tip))
+          (.leaf k p kind repr raw tip))
     | .node k p kind tip children =>
-      detailsEl st c name path (.node k p kind tip children)
-        (complexEl kind
+      detailsEl st c top name path (.node k p kind tip children)
+        (complexEl kind (contentCss c top name (.node k p kind tip children))
           (match children with
            | [] => emptySpan
            | _ :: _ =>
@@ -542,12 +586,15 @@ mutual
   def summaryChildren (st : Sites) (c : Ctx) (path : List Key) : List Tree → Str
     | [] => []
     | t :: ts =>
-      render st (childCtx c) (some t.key.summaryName) (path ++ [t.key]) t ++ summaryChildren st c path ts
+      wrapHL c (path ++ [t.key])
+        (render st (childCtx c) {} (some t.key.summaryName) (path ++ [t.key]) t)
+      ++ summaryChildren st c path ts
 
   def rows (st : Sites) (c : Ctx) (path : List Key) : List Tree → Str
     | [] => []
     | t :: ts =>
-      rowEl (objectKeyEl st (childCtx c) t) (render st (childCtx c) none (path ++ [t.key]) t)
+      rowEl (objectKeyEl st (childCtx c) t)
+        (wrapHL c (path ++ [t.key]) (render st (childCtx c) {} none (path ++ [t.key]) t))
       ++ rows st c path ts
 end
 
@@ -568,7 +615,105 @@ def displayed (o : Opts) : Tree → Tree
 
 /-- `pg.to_html_str(value, content_only=True, **opts)`. -/
 def renderTree (st : Sites) (o : Opts) (v : Tree) : Str :=
-  render st o.toCtx (o.name.map Key.summaryName) [] (displayed o v)
+  render st o.toCtx o.top (o.name.map Key.summaryName) [] (displayed o v)
+
+/-! ### (5) the controls (views/html/controls/{label,tooltip,progress_bar,tab}.py)
+
+Element ids (`HtmlControl.element_id`: the given id, or `control-<address>` for interactive
+controls), the formatted progress texts and `camel_to_snake(name)` are inputs of the model. -/
+
+/-- One Boolean per emission site of user-derived text in the controls (from T-ESC). -/
+structure CSites where
+  labelText : Bool          -- `Label.text` (str) in span.label / a.label
+  tooltipContent : Bool     -- `Tooltip.content` (str) in span.tooltip
+  subProgressClass : Bool   -- `camel_to_snake(SubProgress.name)` in the class attribute
+  deriving DecidableEq, Repr
+
+def CSites.allEscaped (s : CSites) : Bool := s.labelText && s.tooltipContent && s.subProgressClass
+
+/-- `Tooltip._to_html` for a str content. -/
+def tooltipCtl (cs : CSites) (content : Str) (id : Option Str) (css : List Str)
+    (styles : List (Str × Option Str)) : Str :=
+  element c!"span" [] (c!"tooltip" :: css) styles [(c!"id", id)] [emit cs.tooltipContent content]
+
+structure LabelM where
+  text : Str
+  tooltip : Option Str := none      -- a str tooltip (converted to a Tooltip control)
+  link : Option Str := none
+  target : Option Str := none
+  id : Option Str := none
+  tipId : Option Str := none
+  css : List Str := []
+  styles : List (Str × Option Str) := []
+  deriving Repr
+
+/-- `Label._to_html` for a str text. -/
+def labelCtl (cs : CSites) (l : LabelM) : Str :=
+  let textElem :=
+    element (if l.link.isSome then c!"a" else c!"span") [] (c!"label" :: l.css) l.styles
+      [(c!"id", l.id), (c!"href", l.link), (c!"target", l.target)] [emit cs.labelText l.text]
+  match l.tooltip with
+  | none => textElem
+  | some t =>
+    element c!"div" [] [c!"label-container"] [] [] [textElem, tooltipCtl cs t l.tipId [] []]
+
+structure SubM where
+  cssName : Str              -- camel_to_snake(name, '-')
+  width : Option Str         -- f'{value / total:.0%}' or None
+  id : Option Str
+  css : List Str := []
+  deriving Repr
+
+/-- `SubProgress._to_html`. -/
+def subProgressCtl (cs : CSites) (sp : SubM) : Str :=
+  element c!"div" [] (c!"sub-progress" :: emit cs.subProgressClass sp.cssName :: sp.css)
+    [(c!"width", sp.width)] [(c!"id", sp.id)] []
+
+def concatMap {α : Type} (f : α → Str) : List α → Str
+  | [] => []
+  | x :: xs => f x ++ concatMap f xs
+
+/-- `ProgressBar._to_html`: the shade with the sub-progress bars, then the progress label. -/
+def progressBarCtl (cs : CSites) (subs : List SubM) (label : LabelM) : Str :=
+  element c!"div" [] [c!"progress-bar"] [] []
+    [element c!"div" [] [c!"shade"] [] [] [concatMap (subProgressCtl cs) subs], labelCtl cs label]
+
+structure TabM where
+  label : LabelM
+  content : Str            -- the tab's Html content, already rendered markup
+  css : List Str := []
+  id : Option Str          -- element_id(str(i))
+  deriving Repr
+
+def tabButtons (cs : CSites) (ctlId : Str) (selected : Nat) : Nat → List TabM → Str
+  | _, [] => []
+  | i, t :: ts =>
+    element c!"button" []
+      (c!"tab-button" :: ((if i == selected then [c!"selected"] else []) ++ t.css)) []
+      [(c!"onclick", some (c!"openTab(event, '" ++ ctlId ++ c!"', '" ++ t.id.getD c!"None" ++ c!"')"))]
+      [labelCtl cs t.label]
+    ++ tabButtons cs ctlId selected (i + 1) ts
+
+def tabContents (selected : Nat) : Nat → List TabM → Str
+  | _, [] => []
+  | i, t :: ts =>
+    element c!"div" []
+      (c!"tab-content" :: ((if i == selected then [c!"selected"] else []) ++ t.css)) []
+      [(c!"id", t.id)] [t.content]
+    ++ tabContents selected (i + 1) ts
+
+/-- `TabControl._to_html`. -/
+def tabCtl (cs : CSites) (ctlId : Str) (bgId cgId : Option Str) (left : Bool) (selected : Nat)
+    (css : List Str) (styles : List (Str × Option Str)) (tabs : List TabM) : Str :=
+  let pos := if left then c!"left" else c!"top"
+  element c!"table" [] [c!"tab-control"] styles []
+    [ c!"<tr><td>",
+      element c!"div" [] (c!"tab-button-group" :: pos :: css) [] [(c!"id", bgId)]
+        [tabButtons cs ctlId selected 0 tabs],
+      (if left then c!"</td><td>" else c!"</td></tr><tr><td>"),
+      element c!"div" [] (c!"tab-content-group" :: pos :: css) [] [(c!"id", cgId)]
+        [tabContents selected 0 tabs],
+      c!"</td></tr>" ]
 
 /-! ### what the property expects to find in the output -/
 
